@@ -219,6 +219,27 @@ def c17_streams(tier, rng, ctx):
         es = envspec(env)
         lines = ["\t".join(["expand", es, hx(t)]) for t in templates]
         impl_env = {"HOME": env["HOME"], "V": env["V"], "W": env["W"]}
+        if i == 0:
+            # the environment changing between two calls of ONE process: each expansion reads the environment as it is then
+            seq = []
+            homes = ["/h1", "/h2", "-"]
+            for h1 in homes:
+                for h2 in homes:
+                    for p1 in ["~", "~/x", "$HOME/x", "plain"]:
+                        for p2 in ["~", "~/x", "$HOME/x"]:
+                            seq.append("\t".join(["expand_seq", hx(h1) if h1 != "-" else "-", hx(p1), hx(h2) if h2 != "-" else "-", hx(p2)]))
+
+            def seq_law(ln, out):
+                f = ln.split("\t")
+                h2 = None if f[3] == "-" else bytes.fromhex(f[3]).decode()
+                p2 = bytes.fromhex(f[4]).decode()
+                r2 = out.split(";")[-1]
+                if h2 is None:
+                    return r2.startswith("E:")
+                want = h2 if p2 == "~" else h2 + "/x"
+                return r2 == "S:" + want.encode().hex()
+            sts.append(Stream("expand-env-changes", "pycheck", seq, pycheck=seq_law, exhaustive=True, impl_env=impl_env,
+                              rule="two expansions in one process with HOME set, changed or removed in between: the second reads the environment as it is then"))
         sts.append(Stream("expand-env%02d" % i, "mirror", lines, judge=c17_in_domain, impl_env=impl_env,
                           nontrivial=lambda l, o: ("24" in l.split("\t")[2] or "7e" in l.split("\t")[2]),
                           rule="env %s: every template of <= %d tokens from %s (own process)" % (es, n, " ".join(toks))))
